@@ -12,6 +12,9 @@ type SDT struct {
 	Properties *SDTProperties `xml:"w:sdtPr"`
 	EndPr      *SDTEndPr      `xml:"w:sdtEndPr,omitempty"`
 	Content    *SDTContent    `xml:"w:sdtContent"`
+
+	// 目录SDT生成时请求的最大标题级别（0表示未知），UpdateTOC 据此重建目录
+	tocMaxLevel int
 }
 
 // ElementType 返回SDT元素类型
@@ -109,6 +112,7 @@ type Tab struct {
 // CreateTOCSDT 创建目录SDT结构
 func (d *Document) CreateTOCSDT(title string, maxLevel int) *SDT {
 	sdt := &SDT{
+		tocMaxLevel: maxLevel,
 		Properties: &SDTProperties{
 			RunPr: &RunProperties{
 				FontFamily: &FontFamily{ASCII: "宋体"},
